@@ -88,6 +88,9 @@ def header_of(spec, width, height):
         h["PC1_2"] = float(cd[0, 1] / d1)
         h["PC2_1"] = float(cd[1, 0] / d2)
         h["PC2_2"] = float(cd[1, 1] / d2)
+    if spec.get("lonpole") is not None:
+        # native longitude of the celestial pole given explicitly (a rotation about the reference point)
+        h["LONPOLE"] = float(spec["lonpole"])
     return h
 
 
